@@ -661,6 +661,12 @@ Theorem Freundlich_strictly_monotone : forall K m p q,
 Proof. exact Freundlich_strictly_monotone. Qed.
 Print Assumptions Freundlich_strictly_monotone.
 
+Theorem Freundlich_monotone : forall K m p q,
+  Freundlich_bounds K m -> 0 < m -> 0 <= p -> p <= q ->
+  Freundlich_loading K m p <= Freundlich_loading K m q.
+Proof. exact Freundlich_monotone. Qed.
+Print Assumptions Freundlich_monotone.
+
 Theorem Freundlich_spread_zero : forall K m,
   0 < m ->
   Freundlich_spreading_pressure_def K m 0 /\ Freundlich_spreading_pressure K m 0 = 0.
@@ -855,6 +861,12 @@ Theorem JensenSeaton_strictly_monotone : forall K a b c p q,
   0 <= p -> p < q -> JensenSeaton_loading K a b c p < JensenSeaton_loading K a b c q.
 Proof. exact JensenSeaton_strictly_monotone. Qed.
 Print Assumptions JensenSeaton_strictly_monotone.
+
+Theorem JensenSeaton_monotone : forall K a b c p q,
+  JensenSeaton_bounds K a b c -> 0 < K -> 0 < a -> 0 < c ->
+  0 <= p -> p <= q -> JensenSeaton_loading K a b c p <= JensenSeaton_loading K a b c q.
+Proof. exact JensenSeaton_monotone. Qed.
+Print Assumptions JensenSeaton_monotone.
 
 (* any two non-negative roots the solver may return coincide, given strict monotonicity of the loading *)
 Theorem JensenSeaton_root_unique_from_monotone : forall K a b c n x y,
